@@ -204,6 +204,11 @@ impl Allocator {
     #[cfg(feature = "gc_stress")]
     self.collect_garbage_with_value(context, reference);
 
+    #[cfg(feature = "verif")]
+    if crate::verif::gc_due(&mut self.next_gc) {
+      self.collect_garbage_with_value(context, reference);
+    }
+
     if self.bytes_allocated > self.next_gc {
       self.collect_garbage_with_value(context, reference);
     }
@@ -233,6 +238,11 @@ impl Allocator {
 
     #[cfg(feature = "gc_stress")]
     self.collect_garbage_with_value(context, obj);
+
+    #[cfg(feature = "verif")]
+    if crate::verif::gc_due(&mut self.next_gc) {
+      self.collect_garbage_with_value(context, obj);
+    }
 
     if self.bytes_allocated > self.next_gc {
       self.collect_garbage_with_value(context, obj);
@@ -281,12 +291,20 @@ impl Allocator {
         self.trace(&**root);
       });
 
+      #[cfg(feature = "verif")]
+      self.verif_marked();
+
       self.sweep_intern_cache();
       let obj_heap_size = self.sweep_obj_heap();
       let heap_size = self.sweep_heap();
 
       self.bytes_allocated = heap_size + obj_heap_size;
       self.next_gc = self.bytes_allocated * GC_HEAP_GROW_FACTOR
+    }
+
+    #[cfg(feature = "verif")]
+    if context.can_collect() {
+      self.verif_collected();
     }
 
     #[cfg(any(
@@ -354,6 +372,15 @@ impl Allocator {
     #[cfg(feature = "gc_stress")]
     return self.sweep_obj_full();
 
+    #[cfg(all(feature = "verif", not(feature = "gc_stress")))]
+    if let Some(full) = crate::verif::sweep_override() {
+      return if full {
+        self.sweep_obj_full()
+      } else {
+        self.sweep_obj_nursery()
+      };
+    }
+
     #[cfg(not(feature = "gc_stress"))]
     if self.gc_count % 10 == 0 {
       self.sweep_obj_full()
@@ -366,6 +393,9 @@ impl Allocator {
   /// to the normal heap
   #[cfg(not(feature = "gc_stress"))]
   fn sweep_obj_nursery(&mut self) -> usize {
+    #[cfg(feature = "verif")]
+    crate::verif::note_sweep(false);
+
     let mut remaining: usize = 0;
 
     self.obj_heap.iter().for_each(|obj| {
@@ -400,6 +430,9 @@ impl Allocator {
   /// Remove unmarked objects from the both heaps. Promoting surviving objects
   /// to the normal heap
   fn sweep_obj_full(&mut self) -> usize {
+    #[cfg(feature = "verif")]
+    crate::verif::note_sweep(true);
+
     let mut remaining: usize = 0;
 
     self.obj_heap.retain(|obj| {
@@ -534,6 +567,145 @@ fn debug_free_obj(obj: &ObjectHandle) {
     obj.size(),
     DebugWrapDyn(obj, 1)
   )
+}
+
+#[cfg(feature = "verif")]
+impl Allocator {
+  /// Called with marks still set, before anything is swept
+  fn verif_marked(&self) {
+    use crate::{managed::Marked, object::ObjectKind, verif};
+    use std::sync::atomic::Ordering::Relaxed;
+
+    verif::COLLECTIONS.fetch_add(1, Relaxed);
+    verif::OBJS_FREED.fetch_add(
+      (self.obj_heap.len() + self.nursery_obj_heap.len()) as u64,
+      Relaxed,
+    );
+
+    if !verif::CHECK_INTERN.load(Relaxed) {
+      return;
+    }
+    verif::INTERN_CHECKS.fetch_add(1, Relaxed);
+
+    // every marked string must be the interned string for its content
+    let mut seen: HashMap<&str, usize> = HashMap::new();
+    for handle in self.obj_heap.iter().chain(self.nursery_obj_heap.iter()) {
+      if handle.kind() != ObjectKind::String || !handle.marked() {
+        continue;
+      }
+
+      let string = handle.verif_ref().to_str();
+      let address = string.as_ptr() as usize;
+      let content: &str = unsafe { &*(&*string as *const str) };
+      verif::INTERN_STRINGS_SEEN.fetch_add(1, Relaxed);
+
+      if let Some(other) = seen.insert(content, address) {
+        if other != address {
+          verif::violation(format!(
+            "intern: two live strings with content {:?} at {:#x} and {:#x}",
+            content, other, address
+          ));
+        }
+      }
+
+      match self.intern_cache.get(content) {
+        Some(interned) if interned.as_ptr() as usize == address => (),
+        Some(interned) => verif::violation(format!(
+          "intern: live string {:?} at {:#x} but table holds {:#x}",
+          content,
+          address,
+          interned.as_ptr() as usize
+        )),
+        None => verif::violation(format!(
+          "intern: live string {:?} at {:#x} missing from table",
+          content, address
+        )),
+      }
+    }
+
+    // every key must view the bytes of its own value
+    for (key, value) in self.intern_cache.iter() {
+      if key.as_ptr() != value.as_ptr() || key.len() != value.len() {
+        verif::violation(format!(
+          "intern: key {:?} does not point into its value {:#x}",
+          key,
+          value.as_ptr() as usize
+        ));
+      }
+    }
+  }
+
+  /// Called once the sweeps are done and the counters are updated
+  fn verif_collected(&self) {
+    use crate::{managed::Marked, object::ObjectKind, verif};
+    use std::sync::atomic::Ordering::Relaxed;
+
+    // verif_marked added the population before the sweep
+    let after = (self.obj_heap.len() + self.nursery_obj_heap.len()) as u64;
+    verif::OBJS_FREED.fetch_sub(after, Relaxed);
+
+    if !verif::SNAPSHOT.load(Relaxed) {
+      return;
+    }
+
+    let mut snapshot = verif::Snapshot {
+      gc_count: self.gc_count as u64,
+      full: verif::last_sweep_full(),
+      bytes_allocated: self.bytes_allocated,
+      next_gc: self.next_gc,
+      heap_len: self.heap.len(),
+      obj_heap_len: self.obj_heap.len(),
+      nursery_len: self.nursery_obj_heap.len(),
+      intern_len: self.intern_cache.len(),
+      temp_roots: self.temp_roots.len(),
+      ..Default::default()
+    };
+
+    for item in self.heap.iter() {
+      snapshot.sum_sizes += item.size();
+    }
+    for handle in self.obj_heap.iter().chain(self.nursery_obj_heap.iter()) {
+      snapshot.sum_sizes += handle.size();
+      snapshot.kinds[handle.kind() as usize] += 1;
+      if handle.kind() == ObjectKind::String {
+        snapshot.live_strings += 1;
+      }
+      if handle.marked() {
+        verif::violation(format!("sweep: object {:p} still marked after collection", *handle));
+      }
+    }
+
+    // every interned string must still be held by a heap
+    if snapshot.full && verif::CHECK_INTERN.load(Relaxed) {
+      let mut held: hashbrown::HashSet<usize> = hashbrown::HashSet::new();
+      for handle in self.obj_heap.iter() {
+        if handle.kind() == ObjectKind::String {
+          held.insert(handle.verif_ref().to_str().as_ptr() as usize);
+        }
+      }
+      for (key, value) in self.intern_cache.iter() {
+        if !held.contains(&(value.as_ptr() as usize)) {
+          verif::violation(format!(
+            "intern: entry {:?} -> {:#x} is not a held string",
+            key,
+            value.as_ptr() as usize
+          ));
+        }
+      }
+    }
+
+    verif::push_snapshot(snapshot);
+  }
+
+  /// The threshold of the next collection
+  pub fn verif_next_gc(&self) -> usize {
+    self.next_gc
+  }
+
+  /// How many collections have run
+  pub fn verif_gc_count(&self) -> u64 {
+    self.gc_count as u64
+  }
 }
 
 impl Default for Allocator {
